@@ -341,6 +341,14 @@ type dialOutcome struct {
 }
 
 func runDial(c Case, earlier []string) (dialOutcome, []*broker) {
+	return runDialT(c, earlier, 700*time.Millisecond)
+}
+
+func deadlineErr(err error) bool {
+	return err != nil && (errors.Is(err, context.DeadlineExceeded) || strings.Contains(err.Error(), "deadline exceeded") || strings.Contains(err.Error(), "timed out"))
+}
+
+func runDialT(c Case, earlier []string, limit time.Duration) (dialOutcome, []*broker) {
 	var brokers []*broker
 	var contacts []addresses.CCBContact
 	var wg sync.WaitGroup
@@ -386,7 +394,7 @@ func runDial(c Case, earlier []string) (dialOutcome, []*broker) {
 		}
 	}
 	sec := kit.BaseConfig(security.SecurityOptional, security.SecurityOptional, security.AuthClaimToBe)
-	opts := ccb.DialOptions{Security: sec, ListenAddr: "127.0.0.1:0", Timeout: 700 * time.Millisecond, TargetDesc: "verif-target"}
+	opts := ccb.DialOptions{Security: sec, ListenAddr: "127.0.0.1:0", Timeout: limit, TargetDesc: "verif-target"}
 	switch {
 	case c.Stagger < 0:
 		opts.Stagger = -1
@@ -591,6 +599,13 @@ func freshIDs(brokers []*broker) string {
 func runCase(c Case) (string, bool) {
 	o, brokers := runDial(c, nil)
 	v, nt := judge(c, o, brokers)
+	if v != "" && deadlineErr(o.err) {
+		// the verdict rests on Dial having run into its own 700 ms limit: on a busy machine that says nothing.
+		// The same case again with a limit no honest exchange needs; only what still fails then counts.
+		ev.Class("rerun-with-a-patient-time-limit")
+		o, brokers = runDialT(c, nil, 8*time.Second)
+		v, nt = judge(c, o, brokers)
+	}
 	if v == "" {
 		v = freshIDs(brokers)
 	}
